@@ -384,7 +384,7 @@ V("c19-handle-cached", "C19", "M", ARR, '''        with self.fs.open(self.url, m
 V("c19-threading-lock", "C19", "M", XRP, "        lock = SerializableLock()", "        lock = threading.Lock()", "lock", more=[(XRP, "import numpy as np\n", "import threading\n\nimport numpy as np\n")])
 V("c19-memo-last-chunk", "C19", "M", ARR, "                chunk = read_chunk(f, **chunk_info)\n", "                chunk = read_chunk(f, **chunk_info)\n                self._last = chunk\n", "shared")
 V("c19-handle-leaked", "C19", "M", ARR, "                chunk = read_chunk(f, **chunk_info)\n", "                chunk = read_chunk(f, **chunk_info)\n                HANDLES.append(f)\n", "handle", more=[(ARR, "raw_dtypes = {", "HANDLES = []\n\nraw_dtypes = {")])
-V("c19-eq-lock-removed", "C19", "E", XRP, "        with self.lock:\n            return self.array[key]", "        return self.array[key]")
+V("c19-lock-removed", "C19", "M", XRP, "        with self.lock:\n            return self.array[key]", "        return self.array[key]", "C19-T6")
 
 # ---------------------------------------------------------------- C20
 V("c20-padding-known-attr", ["C20", "C03"], "M", SMD, '        "number_of_overlap_lines_with_adjacent_bursts",\n    }', '        "number_of_overlap_lines_with_adjacent_bursts",\n        "reserved5",\n    }', "reserved5")
